@@ -17,6 +17,8 @@ Part B - delivery of a request attribute along a call chain
     locations (local names, dict[key] slots) -> object group, groups are live (still carry the datum) or dead (replaced / the inner
     key overwritten or removed), with case splits on the tests it can decide from the presence facts.  It reports the statements
     that replace or drop the container before the primitive is reached.
+
+Part C - the Range a back end sends when it is assembled out of sight of the request call (`RangeExec`, see the comment there)
 """
 from __future__ import annotations
 
@@ -1975,3 +1977,705 @@ class Delivery:
         if exits and not any(e.forwarded for e in exits) and not self.problems:
             self.problems.append(Problem('dropped', t.qual, self.uni.mods[t.rel].path, t.fn.lineno,
                                          f'{t.fn.name} sets {self._what()} but no call on any path passes it on'))
+
+
+# =================================================================================================
+# Part C: the Range a back end sends, when it is not spelled out at the request call of `_open_from`
+# =================================================================================================
+#
+# `RangeExec` executes `_open_from` abstractly, once for "length given" and once for "length is None", following calls into
+# functions of the same module (methods of the class / of attribute types defined there, nested functions, lambdas) with the
+# arguments bound to the parameters.  Values are symbolic: string templates (literal / expression parts), dicts built and updated
+# along the path (shared by reference, copied by dict(x) / **x), expressions over the root symbols `start` / `length`, None, closures.
+# Tests that the None-ness of a value decides are decided; every other test splits the path and is recorded as a path condition.
+# Every call that leaves the module with a `headers=` / `Range=` keyword or a tracked `**dict` - and every call the back end's request
+# predicate names - is an EVENT: (Range template or absent, path condition).  A closure handed to an object that outlives the call
+# (a re-open callback) is executed afterwards with fresh symbols for its parameters: its events are RE-REQUESTS.
+# Nothing is run; loops around requests and unresolvable calls that receive tracked values are declined.
+
+from . import strparts  # noqa: E402
+
+
+class RxE:
+    """An expression over the root symbols (substituted syntax tree)."""
+    __slots__ = ('e',)
+
+    def __init__(self, e: ast.AST):
+        self.e = e
+
+    def __deepcopy__(self, memo):
+        return self
+
+
+class RxS:
+    """A string template."""
+    __slots__ = ('parts',)
+
+    def __init__(self, parts: List[Tuple[str, str]]):
+        merged: List[Tuple[str, str]] = []
+        for p in parts:
+            if p[0] == 'lit' and merged and merged[-1][0] == 'lit':
+                merged[-1] = ('lit', merged[-1][1] + p[1])
+            elif not (p[0] == 'lit' and p[1] == ''):
+                merged.append(p)
+        self.parts = merged
+
+    def __deepcopy__(self, memo):
+        return self
+
+
+class RxD:
+    """A dict object (shared by reference)."""
+
+    def __init__(self, items: Optional[Dict[str, object]] = None, rest: bool = False):
+        self.items: Dict[str, object] = dict(items or {})
+        self.rest = rest  # may hold further, unknown keys
+
+
+class RxC:
+    """A closure: nested def / lambda with the frame it was created in."""
+
+    def __init__(self, node: ast.AST, env: Dict[str, object], ref: 'FuncRef'):
+        self.node, self.env, self.ref = node, env, ref
+
+    def __deepcopy__(self, memo):
+        c = RxC(self.node, copy.deepcopy(self.env, memo), self.ref)
+        return c
+
+
+class _RxNone:
+    def __deepcopy__(self, memo):
+        return self
+
+    def __repr__(self):
+        return 'None'
+
+
+class _RxUnk:
+    def __deepcopy__(self, memo):
+        return self
+
+    def __repr__(self):
+        return '?'
+
+
+RX_NONE, RX_UNK = _RxNone(), _RxUnk()
+
+
+class RangeEvent:
+    def __init__(self, where: str, file: str, call: ast.Call, value: object, cond: List[Tuple[str, bool]], given: bool, deferred: List[str]):
+        self.where, self.file, self.call, self.value, self.cond, self.given, self.deferred = where, file, call, value, list(cond), given, list(deferred)
+
+
+class _World:
+    """One path: every frame of the call stack (so that a path split copies all of them consistently), the path condition, the
+    closures that escaped into longer-lived objects."""
+
+    def __init__(self):
+        self.cond: List[Tuple[str, bool]] = []
+        self.escaped: List[RxC] = []
+        self.frames: List[Dict[str, object]] = []
+
+
+class RangeExec:
+    MAX_PATHS = 256
+
+    def __init__(self, uni: 'Universe', rel: str, cls: ast.ClassDef, fn: pf.FuncDef, start: str, length: str, terminal):
+        self.uni, self.rel, self.cls, self.fn, self.start, self.length, self.terminal = uni, rel, cls, fn, start, length, terminal
+        self.events: List[RangeEvent] = []
+        self.given = True
+        self.deferred: List[str] = []
+        self.n_paths = 0
+        self.depth = 0
+
+    # ---- entry
+    def run(self) -> List[RangeEvent]:
+        for given in (True, False):
+            self.given = given
+            env: Dict[str, object] = {a.arg: RxE(ast.Name(id=a.arg, ctx=ast.Load())) for a in self.fn.args.args + self.fn.args.kwonlyargs}
+            if not given:
+                env[self.length] = RX_NONE
+            w = _World()
+            w.frames.append(env)
+            ref = FuncRef(self.rel, self.cls, self.fn)
+            outs = self.block(self.fn.body, [(w, env)], ref)
+            # closures that escaped into longer-lived objects: called later, with arguments we know nothing about
+            for w2, _env, _out in outs:
+                for i in range(len(w2.escaped)):
+                    self.run_escaped(i, w2)
+        return self.events
+
+    def run_escaped(self, i: int, w: _World) -> None:
+        w2 = copy.deepcopy(w)
+        c = w2.escaped[i]
+        w2.escaped = []
+        node = c.node
+        params = [a.arg for a in node.args.args]
+        if node.args.vararg or node.args.kwarg or node.args.kwonlyargs:
+            raise Decline(f'{c.ref.qual}: callback with star / keyword-only parameters')
+        env = dict(c.env)
+        fresh = []
+        for p_ in params:
+            sym = p_ if p_ not in (self.start, self.length) else p_ + '_cb'
+            env[p_] = RxE(ast.Name(id=sym, ctx=ast.Load()))
+            fresh.append(sym)
+        saved = self.deferred
+        self.deferred = saved + fresh
+        try:
+            w2.frames.append(env)
+            if isinstance(node, ast.Lambda):
+                self.expr_stmt_value(node.body, w2, env, c.ref)
+            else:
+                self.block(node.body, [(w2, env)], c.ref)
+        finally:
+            self.deferred = saved
+
+    # ---- statements: worlds are (world, env) pairs; result: list of (world, env, outcome) with outcome None | ('return', value) | ('raise',)
+    def block(self, stmts: Sequence[ast.stmt], states: List[Tuple[_World, Dict[str, object]]], ref: 'FuncRef') -> List[Tuple[_World, Dict[str, object], Optional[tuple]]]:
+        done: List[Tuple[_World, Dict[str, object], Optional[tuple]]] = []
+        cur = list(states)
+        for st in stmts:
+            nxt: List[Tuple[_World, Dict[str, object]]] = []
+            for w, env in cur:
+                for w2, env2, out in self.stmt(st, w, env, ref):
+                    if out is None:
+                        nxt.append((w2, env2))
+                    else:
+                        done.append((w2, env2, out))
+            cur = nxt
+            self.n_paths = max(self.n_paths, len(cur) + len(done))
+            if len(cur) + len(done) > self.MAX_PATHS:
+                raise Decline(f'{ref.qual}: too many paths')
+        return done + [(w, env, None) for w, env in cur]
+
+    def fork(self, w: _World, env: Dict[str, object]) -> Tuple[_World, Dict[str, object]]:
+        assert w.frames and w.frames[-1] is env
+        w2 = copy.deepcopy(w)
+        return w2, w2.frames[-1]
+
+    def stmt(self, st: ast.stmt, w: _World, env: Dict[str, object], ref: 'FuncRef') -> List[Tuple[_World, Dict[str, object], Optional[tuple]]]:
+        if isinstance(st, (ast.Pass, ast.Import, ast.ImportFrom, ast.Global, ast.Nonlocal)) or isinstance(st, ast.Expr) and isinstance(st.value, ast.Constant):
+            return [(w, env, None)]
+        if isinstance(st, (ast.FunctionDef, ast.AsyncFunctionDef)):
+            env[st.name] = RxC(st, env, ref)
+            return [(w, env, None)]
+        if isinstance(st, ast.Expr):
+            return [(w2, e2, None) for w2, e2, _v in self.expr_stmt_value(st.value, w, env, ref)]
+        if isinstance(st, (ast.Assign, ast.AnnAssign)):
+            if st.value is None:
+                return [(w, env, None)]
+            tgts = st.targets if isinstance(st, ast.Assign) else [st.target]
+            out = []
+            for w2, e2, v in self.expr_stmt_value(st.value, w, env, ref):
+                for t in tgts:
+                    self.store(t, v, e2, ref, st)
+                out.append((w2, e2, None))
+            return out
+        if isinstance(st, ast.AugAssign):
+            if isinstance(st.target, ast.Name) and isinstance(st.op, ast.Add):
+                cur = env.get(st.target.id)
+                add = self.value(st.value, env, ref, w)
+                if isinstance(cur, RxS):
+                    env[st.target.id] = RxS(cur.parts + self.as_parts(add, st.value, env))
+                    return [(w, env, None)]
+            self.kill(st.target, env)
+            return [(w, env, None)]
+        if isinstance(st, ast.Return):
+            if st.value is None:
+                return [(w, env, ('return', RX_NONE))]
+            return [(w2, e2, ('return', v)) for w2, e2, v in self.expr_stmt_value(st.value, w, env, ref)]
+        if isinstance(st, ast.Raise):
+            return [(w, env, ('raise',))]
+        if isinstance(st, ast.Assert):
+            t = self.truth(st.test, env, ref, w)
+            if t is False:
+                return [(w, env, ('raise',))]
+            return [(w, env, None)]
+        if isinstance(st, ast.If):
+            res = []
+            for w2, env2, b in self.branches(st.test, w, env, ref):
+                res += self.block(st.body if b else st.orelse, [(w2, env2)], ref)
+            return res
+        if isinstance(st, (ast.With, ast.AsyncWith)):
+            for it in st.items:
+                if it.optional_vars is not None:
+                    self.kill(it.optional_vars, env)
+            return self.block(st.body, [(w, env)], ref)
+        if isinstance(st, ast.Try):
+            outs = self.block(st.body, [(w, env)], ref)
+            res = []
+            for w2, e2, out in outs:
+                if out is None and st.orelse:
+                    res += self.block(st.orelse, [(w2, e2)], ref)
+                else:
+                    res.append((w2, e2, out))
+            if st.finalbody:
+                fin = []
+                for w2, e2, out in res:
+                    for w3, e3, out3 in self.block(st.finalbody, [(w2, e2)], ref):
+                        fin.append((w3, e3, out3 if out3 is not None else out))
+                res = fin
+            return res
+        if isinstance(st, (ast.For, ast.AsyncFor, ast.While)):
+            if any(isinstance(x, (ast.Call, ast.Await)) and self.interesting_call(x, env) for x in ast.walk(st)):
+                raise Decline(f'{ref.qual}: a request-related call inside a loop (line {st.lineno})')
+            for x in ast.walk(st):
+                if isinstance(x, (ast.Name,)) and isinstance(x.ctx, ast.Store):
+                    env[x.id] = RX_UNK
+                if isinstance(x, ast.Subscript) and isinstance(x.ctx, ast.Store) and isinstance(x.value, ast.Name) and isinstance(env.get(x.value.id), RxD):
+                    raise Decline(f'{ref.qual}: a tracked dict is updated inside a loop (line {st.lineno})')
+            return [(w, env, None)]
+        if isinstance(st, ast.Delete):
+            for t in st.targets:
+                if isinstance(t, ast.Subscript) and isinstance(t.value, ast.Name) and isinstance(env.get(t.value.id), RxD):
+                    k = pf.const_str(t.slice)
+                    if k is None:
+                        raise Decline(f'{ref.qual}: `{pf.nsrc(st)}` not recognised')
+                    env[t.value.id].items.pop(k, None)  # type: ignore[union-attr]
+                else:
+                    self.kill(t, env)
+            return [(w, env, None)]
+        raise Decline(f'{ref.qual}: statement `{pf.nsrc(st)[:60]}` not recognised')
+
+    def branches(self, t: ast.AST, w: _World, env: Dict[str, object], ref: 'FuncRef') -> List[Tuple[_World, Dict[str, object], bool]]:
+        """The outcomes of a test: decided, or one world per atom valuation that matters (short-circuit order), each atom recorded in
+        the path condition."""
+        v = self.truth(t, env, ref, w)
+        if v is not None:
+            return [(w, env, v)]
+        if isinstance(t, ast.UnaryOp) and isinstance(t.op, ast.Not):
+            return [(w2, e2, not b) for w2, e2, b in self.branches(t.operand, w, env, ref)]
+        if isinstance(t, ast.BoolOp):
+            stop = isinstance(t.op, ast.Or)  # the value that ends the evaluation
+            done: List[Tuple[_World, Dict[str, object], bool]] = []
+            cur = [(w, env)]
+            for x in t.values:
+                nxt = []
+                for w1, e1 in cur:
+                    for w2, e2, b in self.branches(x, w1, e1, ref):
+                        if b == stop:
+                            done.append((w2, e2, stop))
+                        else:
+                            nxt.append((w2, e2))
+                cur = nxt
+            return done + [(w2, e2, not stop) for w2, e2 in cur]
+        w2, env2 = self.fork(w, env)
+        txt = self.cond_text(t, env)
+        w.cond.append((txt, True))
+        w2.cond.append((txt, False))
+        return [(w, env, True), (w2, env2, False)]
+
+    def kill(self, t: ast.AST, env: Dict[str, object]) -> None:
+        for x in ast.walk(t):
+            if isinstance(x, ast.Name):
+                env[x.id] = RX_UNK
+
+    def store(self, t: ast.AST, v: object, env: Dict[str, object], ref: 'FuncRef', st: ast.AST) -> None:
+        if isinstance(t, ast.Name):
+            env[t.id] = v
+            return
+        if isinstance(t, ast.Subscript) and isinstance(t.value, ast.Name) and isinstance(env.get(t.value.id), RxD):
+            k = pf.const_str(t.slice)
+            d = env[t.value.id]
+            if k is None:
+                d.rest = True  # type: ignore[union-attr]
+                if 'Range' in d.items or 'headers' in d.items:  # type: ignore[union-attr]
+                    raise Decline(f'{ref.qual}: `{pf.nsrc(st)[:60]}` stores under a computed key into a dict that carries the Range')
+                return
+            d.items[k] = v  # type: ignore[union-attr]
+            return
+        if isinstance(t, ast.Subscript):
+            base = self.value(t.value, env, ref, None)
+            k = pf.const_str(t.slice)
+            if isinstance(base, RxD) and k is not None:
+                base.items[k] = v
+                return
+        if isinstance(t, (ast.Tuple, ast.List)):
+            self.kill(t, env)
+            return
+        # attribute stores: a closure stored on an object outlives the call
+        if isinstance(t, ast.Attribute) and isinstance(v, RxC):
+            raise Decline(f'{ref.qual}: closure stored on an attribute')
+
+    # ---- values
+    def subst(self, e: ast.AST, env: Dict[str, object]) -> ast.AST:
+        ex = self
+
+        class S(ast.NodeTransformer):
+            def visit_Name(self, node: ast.Name):
+                v = env.get(node.id)
+                if isinstance(v, RxE):
+                    return copy.deepcopy(v.e)
+                if v is RX_NONE:
+                    return ast.Constant(value=None)
+                if v is RX_UNK or isinstance(v, (RxS, RxD, RxC)):
+                    return ast.Name(id=f'{node.id}?', ctx=ast.Load())
+                return node
+
+            def visit_Lambda(self, node):
+                return node
+        return S().visit(copy.deepcopy(e))
+
+    def cond_text(self, e: ast.AST, env: Dict[str, object]) -> str:
+        return pf.nsrc(self.subst(e, env))
+
+    def as_parts(self, v: object, e: ast.AST, env: Dict[str, object]) -> List[Tuple[str, str]]:
+        if isinstance(v, RxS):
+            return list(v.parts)
+        if isinstance(v, RxE):
+            x = v.e
+            if isinstance(x, ast.Call) and isinstance(x.func, ast.Name) and x.func.id == 'str' and len(x.args) == 1:
+                x = x.args[0]
+            return [('expr', pf.nsrc(x))]
+        return [('expr', f'<{pf.nsrc(e)[:30]}>?')]
+
+    def value(self, e: ast.AST, env: Dict[str, object], ref: 'FuncRef', w: Optional[_World]) -> object:
+        """Side-effect free evaluation (calls other than dict / str helpers give an unknown value)."""
+        if isinstance(e, ast.Await):
+            return self.value(e.value, env, ref, w)
+        if isinstance(e, ast.Constant):
+            if e.value is None:
+                return RX_NONE
+            if isinstance(e.value, str):
+                return RxS([('lit', e.value)])
+            return RxE(e)
+        if isinstance(e, ast.Name):
+            if e.id in env:
+                return env[e.id]
+            return RxE(e)
+        if isinstance(e, ast.JoinedStr) or (isinstance(e, ast.BinOp) and isinstance(e.op, ast.Add)):
+            if isinstance(e, ast.BinOp):
+                a, b = self.value(e.left, env, ref, w), self.value(e.right, env, ref, w)
+                if isinstance(a, RxS) or isinstance(b, RxS):
+                    return RxS(self.as_parts(a, e.left, env) + self.as_parts(b, e.right, env))
+                return RxE(self.subst(e, env))
+            parts: List[Tuple[str, str]] = []
+            for v in e.values:
+                if isinstance(v, ast.FormattedValue):
+                    if v.conversion != -1 or v.format_spec is not None:
+                        return RX_UNK
+                    parts += self.as_parts(self.value(v.value, env, ref, w), v.value, env)
+                elif isinstance(v, ast.Constant):
+                    parts.append(('lit', str(v.value)))
+            return RxS(parts)
+        if isinstance(e, ast.Dict):
+            d = RxD()
+            for k, v in zip(e.keys, e.values):
+                if k is None:
+                    src = self.value(v, env, ref, w)
+                    if isinstance(src, RxD):
+                        d.items.update(src.items)
+                        d.rest = d.rest or src.rest
+                    else:
+                        d.rest = True
+                else:
+                    ks = pf.const_str(k)
+                    if ks is None:
+                        d.rest = True
+                    else:
+                        d.items[ks] = self.value(v, env, ref, w)
+            return d
+        if isinstance(e, ast.Lambda):
+            return RxC(e, env, ref)
+        if isinstance(e, ast.Subscript):
+            base = self.value(e.value, env, ref, w)
+            k = pf.const_str(e.slice)
+            if isinstance(base, RxD) and k is not None:
+                if k in base.items:
+                    return base.items[k]
+                return RX_UNK
+            return RX_UNK
+        if isinstance(e, ast.BoolOp) and isinstance(e.op, ast.Or) and len(e.values) == 2:
+            a = self.value(e.values[0], env, ref, w)
+            if a is RX_NONE or (isinstance(a, RxD) and not a.items and not a.rest):
+                return self.value(e.values[1], env, ref, w)
+            if isinstance(a, RxD) and a.items:
+                return a
+            return RX_UNK
+        if isinstance(e, ast.IfExp):
+            t = self.truth(e.test, env, ref, w)
+            if t is None:
+                return RX_UNK
+            return self.value(e.body if t else e.orelse, env, ref, w)
+        if isinstance(e, ast.Call):
+            f = e.func
+            name = pf.dotted(f) or ''
+            if name == 'dict' and not e.keywords and len(e.args) <= 1:
+                if not e.args:
+                    return RxD()
+                src = self.value(e.args[0], env, ref, w)
+                return RxD(src.items, src.rest) if isinstance(src, RxD) else RxD(rest=True)
+            if name == 'str' and len(e.args) == 1 and not e.keywords:
+                v = self.value(e.args[0], env, ref, w)
+                return RxS(self.as_parts(v, e.args[0], env)) if isinstance(v, (RxE, RxS)) else RX_UNK
+            if isinstance(f, ast.Attribute):
+                recv = self.value(f.value, env, ref, w)
+                if isinstance(recv, RxD):
+                    k = pf.const_str(e.args[0]) if e.args else None
+                    if f.attr == 'copy' and not e.args:
+                        return RxD(recv.items, recv.rest)
+                    if f.attr == 'get' and k is not None:
+                        if k in recv.items:
+                            return recv.items[k]
+                        return RX_UNK if recv.rest else (self.value(e.args[1], env, ref, w) if len(e.args) > 1 else RX_NONE)
+                    if f.attr == 'pop' and k is not None:
+                        if k in recv.items:
+                            return recv.items.pop(k)
+                        return RX_UNK if recv.rest else (self.value(e.args[1], env, ref, w) if len(e.args) > 1 else RX_UNK)
+                    if f.attr == 'setdefault' and k is not None and len(e.args) == 2:
+                        if k not in recv.items:
+                            if recv.rest:
+                                return RX_UNK
+                            recv.items[k] = self.value(e.args[1], env, ref, w)
+                        return recv.items[k]
+                    if f.attr == 'update':
+                        for a in e.args:
+                            src = self.value(a, env, ref, w)
+                            if isinstance(src, RxD):
+                                recv.items.update(src.items)
+                                recv.rest = recv.rest or src.rest
+                            else:
+                                recv.rest = True
+                        for kw in e.keywords:
+                            if kw.arg:
+                                recv.items[kw.arg] = self.value(kw.value, env, ref, w)
+                        return RX_NONE
+            return RX_UNK
+        if isinstance(e, (ast.Attribute, ast.BinOp, ast.UnaryOp, ast.Compare)):
+            return RxE(self.subst(e, env))
+        return RX_UNK
+
+    def truth(self, t: ast.AST, env: Dict[str, object], ref: 'FuncRef', w: Optional[_World]) -> Optional[bool]:
+        if isinstance(t, ast.UnaryOp) and isinstance(t.op, ast.Not):
+            v = self.truth(t.operand, env, ref, w)
+            return None if v is None else not v
+        if isinstance(t, ast.BoolOp):
+            vs = [self.truth(x, env, ref, w) for x in t.values]
+            if isinstance(t.op, ast.And):
+                return False if any(v is False for v in vs) else (True if all(v is True for v in vs) else None)
+            return True if any(v is True for v in vs) else (False if all(v is False for v in vs) else None)
+        if isinstance(t, ast.Compare) and len(t.ops) == 1:
+            op, r = t.ops[0], t.comparators[0]
+            if isinstance(r, ast.Constant) and r.value is None and isinstance(op, (ast.Is, ast.IsNot, ast.Eq, ast.NotEq)):
+                v = self.value(t.left, env, ref, w)
+                if v is RX_NONE:
+                    return isinstance(op, (ast.Is, ast.Eq))
+                if isinstance(v, (RxS, RxD, RxC)) or (isinstance(v, RxE) and isinstance(v.e, ast.Name) and v.e.id == self.length and self.given) \
+                        or (isinstance(v, RxE) and isinstance(v.e, ast.Constant)):
+                    return isinstance(op, (ast.IsNot, ast.NotEq))
+                return None
+            if isinstance(op, (ast.In, ast.NotIn)):
+                k = pf.const_str(t.left)
+                d = self.value(r, env, ref, w)
+                if k is not None and isinstance(d, RxD):
+                    if k in d.items:
+                        return isinstance(op, ast.In)
+                    if not d.rest:
+                        return isinstance(op, ast.NotIn)
+            return None
+        v = self.value(t, env, ref, w) if isinstance(t, (ast.Name, ast.Subscript, ast.Call, ast.Constant)) else None
+        if v is RX_NONE:
+            return False
+        if isinstance(v, RxE) and isinstance(v.e, ast.Constant) and isinstance(v.e.value, (bool, int)):
+            return bool(v.e.value)
+        if isinstance(v, RxD):
+            return True if v.items else (None if v.rest else False)
+        if isinstance(v, RxC):
+            return True
+        if isinstance(v, RxE) and isinstance(v.e, ast.Name) and v.e.id == self.length and self.given:
+            return None  # a given length may still be 0 as far as this test is concerned
+        return None
+
+    # ---- calls
+    def interesting_call(self, x: ast.AST, env: Dict[str, object]) -> bool:
+        if isinstance(x, ast.Await):
+            x = x.value
+        if not isinstance(x, ast.Call):
+            return False
+        if self.terminal(x):
+            return True
+        for k in x.keywords:
+            if k.arg in ('headers', 'Range'):
+                return True
+            if k.arg is None and isinstance(k.value, ast.Name) and isinstance(env.get(k.value.id), RxD):
+                return True
+        names = {n.id for a in list(x.args) + [k.value for k in x.keywords] for n in ast.walk(a) if isinstance(n, ast.Name)}
+        return any(isinstance(env.get(n), (RxD, RxC)) for n in names)
+
+    def expr_stmt_value(self, e: ast.AST, w: _World, env: Dict[str, object], ref: 'FuncRef') -> List[Tuple[_World, Dict[str, object], object]]:
+        """Value of the expression of a statement; a call at its top (possibly awaited) is followed / recorded."""
+        x = e.value if isinstance(e, ast.Await) else e
+        if isinstance(x, ast.Call):
+            return self.call(x, w, env, ref)
+        # calls buried deeper in the expression are not followed: they must not be request-related
+        for sub in ast.walk(x):
+            if isinstance(sub, ast.Call) and sub is not x and (self.terminal(sub) or any(k.arg in ('headers', 'Range') for k in sub.keywords)):
+                raise Decline(f'{ref.qual}: request-related call nested inside `{pf.nsrc(e)[:60]}`')
+        return [(w, env, self.value(x, env, ref, w))]
+
+    def targets(self, f: ast.AST, env: Dict[str, object], ref: 'FuncRef') -> Optional[List[object]]:
+        """Functions of THIS module the callee expression may denote ([] = none known, None = leaves the module / unknown)."""
+        if isinstance(f, ast.Name):
+            v = env.get(f.id)
+            if isinstance(v, RxC):
+                return [v]
+            if f.id in env:
+                return None
+            m = self.uni.mods[self.rel]
+            if m.has_func(f.id):
+                return [FuncRef(self.rel, None, m.func(f.id))]
+            return None
+        if isinstance(f, ast.Attribute) and isinstance(f.value, ast.Name) and f.value.id == 'self' and ref.cls is not None:
+            ts = self.uni.method_targets(ref.rel, ref.cls, f.attr)
+            return [t for t in ts] if ts else None
+        if isinstance(f, ast.Attribute) and isinstance(f.value, ast.Attribute) and pf.nsrc(f.value.value) == 'self' and ref.cls is not None:
+            out: List[object] = []
+            for r, tname in self.uni.attr_types(ref.rel, ref.cls, f.value.attr):
+                rt = self.uni.resolve_type(r, tname)
+                if isinstance(rt, list):
+                    for r2, c2 in rt:
+                        out += self.uni.method_targets(r2, c2, f.attr)
+                else:
+                    return None
+            uniq: List[object] = []
+            for t in out:
+                if not any(isinstance(u, FuncRef) and u.fn is t.fn for u in uniq):  # type: ignore[union-attr]
+                    uniq.append(t)
+            return uniq or None
+        return None
+
+    def call(self, c: ast.Call, w: _World, env: Dict[str, object], ref: 'FuncRef') -> List[Tuple[_World, Dict[str, object], object]]:
+        f = c.func
+        args, kws = list(c.args), list(c.keywords)
+        # blocking_to_async(pool, F, *a, **kw)  ==  F(*a, **kw) for our purposes
+        if (pf.dotted(f) or '').split('.')[-1] == 'blocking_to_async' and len(args) >= 2:
+            f, args = args[1], args[2:]
+        # pure helpers first
+        pure = self.value(c, env, ref, w) if f is c.func else RX_UNK
+        if pure is not RX_UNK or (isinstance(f, ast.Attribute) and isinstance(self.value(f.value, env, ref, w), RxD)) or (pf.dotted(f) in ('dict', 'str')):
+            return [(w, env, pure)]
+        ts = self.targets(f, env, ref)
+        same = [t for t in (ts or []) if isinstance(t, RxC) or (isinstance(t, FuncRef) and t.rel == self.rel)]
+        if ts and len(same) == len(ts):
+            if len(same) != 1:
+                raise Decline(f'{ref.qual}: `{pf.nsrc(c)[:60]}` has {len(same)} possible targets in this module')
+            return self.enter(same[0], c, args, kws, w, env, ref)
+        # the call leaves the module (or is unknown): an event when it carries / could carry the Range
+        carried = self.carried(c, args, kws, env, ref, w)
+        if carried is not None or self.terminal(c):
+            val = carried[1] if carried is not None else None
+            self.events.append(RangeEvent(ref.qual, self.uni.mods[ref.rel].path, c, val, w.cond, self.given, self.deferred))
+        else:
+            names = {n.id for a in args + [k.value for k in kws] for n in ast.walk(a) if isinstance(n, ast.Name)}
+            if any(isinstance(env.get(n), RxD) and ('Range' in env[n].items or 'headers' in env[n].items) for n in names):  # type: ignore[union-attr]
+                raise Decline(f'{ref.qual}: `{pf.nsrc(c)[:60]}` receives the dict that carries the Range and is not a function of this module')
+        # closures handed over escape
+        for a in args + [k.value for k in kws]:
+            v = self.value(a, env, ref, w)
+            if isinstance(v, RxC):
+                w.escaped.append(v)
+        return [(w, env, RX_UNK)]
+
+    def carried(self, c: ast.Call, args: List[ast.AST], kws: List[ast.keyword], env: Dict[str, object], ref: 'FuncRef', w: _World) -> Optional[Tuple[str, object]]:
+        """('headers' | 'Range', the Range value or None when the carrier is there without a Range)."""
+        merged: Dict[str, object] = {}
+        rest = False
+        seen = False
+        for k in kws:
+            if k.arg is None:
+                d = self.value(k.value, env, ref, w)
+                if isinstance(d, RxD):
+                    merged.update(d.items)
+                    rest = rest or d.rest
+                    seen = True
+                else:
+                    rest = True
+            else:
+                merged[k.arg] = self.value(k.value, env, ref, w)
+        if 'Range' in merged:
+            return 'Range', merged['Range']
+        if 'headers' in merged:
+            h = merged['headers']
+            if isinstance(h, RxD):
+                if 'Range' in h.items:
+                    return 'headers', h.items['Range']
+                if h.rest:
+                    raise Decline(f'{ref.qual}: headers of `{pf.nsrc(c)[:60]}` have unknown entries')
+                return 'headers', None
+            if h is RX_NONE:
+                return 'headers', None
+            raise Decline(f'{ref.qual}: headers of `{pf.nsrc(c)[:60]}` are not a dict the analysis tracked')
+        if seen and not rest:
+            return 'kwargs', None
+        return None
+
+    def enter(self, t: object, c: ast.Call, args: List[ast.AST], kws: List[ast.keyword], w: _World, env: Dict[str, object], ref: 'FuncRef'
+              ) -> List[Tuple[_World, Dict[str, object], object]]:
+        if self.depth >= 6:
+            raise Decline(f'{ref.qual}: call chain too deep at `{pf.nsrc(c)[:60]}`')
+        if isinstance(t, RxC):
+            node, cenv, cref = t.node, dict(t.env), t.ref
+            skip_self = False
+        else:
+            node, cenv, cref = t.fn, {}, t  # type: ignore[union-attr]
+            skip_self = t.cls is not None and not any(d.split('.')[-1] == 'staticmethod' for d in pf.decorator_names(t.fn))  # type: ignore[union-attr]
+        a = node.args
+        if a.posonlyargs or any(isinstance(x, ast.Starred) for x in args):
+            raise Decline(f'{cref.qual}: star / positional-only arguments at `{pf.nsrc(c)[:60]}`')
+        params = [x.arg for x in a.args][1 if skip_self else 0:]
+        kwonly = [x.arg for x in a.kwonlyargs]
+        if skip_self:
+            cenv[a.args[0].arg] = RxE(ast.Name(id='self', ctx=ast.Load()))
+        bound: Dict[str, object] = {}
+        if len(args) > len(params):
+            if a.vararg is None:
+                raise Decline(f'{cref.qual}: too many arguments at `{pf.nsrc(c)[:60]}`')
+        for p_, x in zip(params, args):
+            bound[p_] = self.value(x, env, ref, w)
+        extra = RxD()
+        for k in kws:
+            if k.arg is None:
+                d = self.value(k.value, env, ref, w)
+                if not isinstance(d, RxD):
+                    raise Decline(f'{ref.qual}: `**{pf.nsrc(k.value)}` at `{pf.nsrc(c)[:60]}` is not a dict the analysis tracked')
+                for kk, vv in d.items.items():
+                    if kk in params + kwonly:
+                        bound[kk] = vv
+                    else:
+                        extra.items[kk] = vv
+                extra.rest = extra.rest or d.rest
+            elif k.arg in params + kwonly:
+                bound[k.arg] = self.value(k.value, env, ref, w)
+            else:
+                extra.items[k.arg] = self.value(k.value, env, ref, w)
+        if a.kwarg is not None:
+            bound[a.kwarg.arg] = extra
+        elif extra.items:
+            raise Decline(f'{cref.qual}: unexpected keywords {sorted(extra.items)} at `{pf.nsrc(c)[:60]}`')
+        if a.vararg is not None:
+            bound[a.vararg.arg] = RX_UNK
+        defaults = dict(zip([x.arg for x in a.args][len(a.args) - len(a.defaults):], a.defaults))
+        defaults.update({p_: d for p_, d in zip(kwonly, a.kw_defaults) if d is not None})
+        for p_ in params + kwonly:
+            if p_ not in bound:
+                if p_ not in defaults:
+                    raise Decline(f'{cref.qual}: parameter {p_} unbound at `{pf.nsrc(c)[:60]}`')
+                bound[p_] = self.value(defaults[p_], {}, cref, w)
+        cenv.update(bound)
+        self.depth += 1
+        w.frames.append(cenv)
+        try:
+            if isinstance(node, ast.Lambda):
+                outs = [(w2, e2, ('return', v)) for w2, e2, v in self.expr_stmt_value(node.body, w, cenv, cref)]
+            else:
+                outs = self.block(node.body, [(w, cenv)], cref)
+        finally:
+            self.depth -= 1
+        res: List[Tuple[_World, Dict[str, object], object]] = []
+        for w2, _e2, out in outs:
+            w2.frames.pop()
+            if out is not None and out[0] == 'raise':
+                continue  # the exceptional exits of a callee are not followed
+            v = out[1] if out is not None else RX_NONE
+            res.append((w2, w2.frames[-1], v))  # the caller's frame as copied with this world
+        return res
